@@ -65,3 +65,75 @@ Proof.
 Qed.
 
 Print Assumptions C16_return_list_holds.
+
+(** * A leaving mode in any position of the list *)
+
+Lemma foldM_app' {A B} (f : A -> B -> res A) (l1 l2 : list B) (a : A) :
+  foldM f (l1 ++ l2) a = (a' <- foldM f l1 a ;; foldM f l2 a').
+Proof.
+  revert a. induction l1 as [|x l1 IH]; intros a; cbn [app foldM bind]; [reflexivity|].
+  destruct (f a x) as [a1|s]; cbn [bind]; [apply IH|reflexivity].
+Qed.
+
+Lemma decrst_one_TInv' t m t' : TInv t -> decrst_one t m = Ok t' -> TInv t'.
+Proof.
+  intros HT H. destruct (execute_ok t (Decrst [m]) HT) as (t2 & E & HT2).
+  rewrite exec_decrst_one, H in E. apply Ok_inj in E as ->. exact HT2.
+Qed.
+
+Lemma split_switch_spec ms : forall a m b,
+  split_switch ms = Some (a, m, b) ->
+  ms = a ++ m :: b /\ forallb (fun x => negb (switches x)) a = true /\ switches m = true.
+Proof.
+  induction ms as [|x ms IH]; intros a m b H; cbn [split_switch] in H; [discriminate|].
+  destruct (switches x) eqn:Ex.
+  - injection H as <- <- <-. cbn. auto.
+  - destruct (split_switch ms) as [[[a' x'] b']|] eqn:E; [|discriminate].
+    injection H as <- <- <-. destruct (IH a' x' b' eq_refl) as (-> & Ha & Hm).
+    cbn [app forallb]. rewrite Ex, Ha. auto.
+Qed.
+
+(** a non-switching prefix keeps the invariant, both buffers and the active screen *)
+Lemma prefix_keeps ms : forall u u',
+  forallb (fun x => negb (switches x)) ms = true -> TInv u -> foldM decrst_one ms u = Ok u' ->
+  TInv u' /\ buf u' = buf u /\ other u' = other u /\ active u' = active u.
+Proof.
+  induction ms as [|m ms IH]; intros u u' Hn HT H; cbn [foldM] in H.
+  - apply Ok_inj in H. subst u'. auto.
+  - cbn [forallb] in Hn. apply andb_prop in Hn as [Hm Hn].
+    apply bind_ok in H as (u1 & H1 & H).
+    pose proof (decrst_one_TInv' u m u1 HT H1) as HT1.
+    rewrite switches_is_switch in Hm. apply Bool.negb_true_iff in Hm.
+    apply (decrst_one_pure u m u1 Hm), keepB_inv in H1 as (_ & _ & K3 & K4 & K5).
+    destruct (IH u1 u' Hn HT1 H) as (I & E1 & E2 & E3). split; [exact I|]. split; [congruence|]. split; congruence.
+Qed.
+
+Theorem C16_return_list_any_holds : forall p p' t f t',
+  TInv t -> execute t f = Ok t' -> holds_C16_return_list_any (mkVt p t) f (mkVt p' t') = true.
+Proof.
+  intros p p' t f t' HT H. unfold holds_C16_return_list_any. cbn [vterm]. cbv zeta.
+  destruct (is_alt_b t) eqn:Ea; [|reflexivity].
+  destruct (is_alt_b t') eqn:Ea'; [reflexivity|]. cbn [negb andb].
+  assert (Eact : active t = Alternate).
+  { unfold is_alt_b in Ea. destruct (active t); [discriminate|reflexivity]. }
+  destruct f; try reflexivity.
+  destruct (split_switch ms) as [[[a m] b]|] eqn:Es; [|reflexivity].
+  destruct (forallb (fun x => negb (switches x)) b) eqn:Hn; [|reflexivity].
+  destruct (split_switch_spec ms a m b Es) as (-> & Ha & Hm).
+  cbn [execute] in H. rewrite foldM_app' in H. apply bind_ok in H as (u & Hu & H).
+  rewrite Hu.
+  destruct (prefix_keeps a t u Ha HT Hu) as (HTu & Eb & Eo & Eau).
+  cbn [foldM] in H. apply bind_ok in H as (t1 & H1 & H).
+  destruct (rest_keeps b t1 t' Hn H) as [Eb' _]. rewrite Eb'.
+  rewrite <- exec_decrst_one in H1. rewrite Eact in Eau.
+  destruct m; try reflexivity.
+  - pose proof (decrst_asb_resize u t1 Eau H1) as Hb.
+    destruct (resize_return_text _ _ _ _ _ _ _ _ (ti_other u HTu) (ti_cols u HTu) (ti_rows u HTu)
+                (ti_row u HTu) (ti_col u HTu) Hb) as (T1 & _).
+    rewrite Eo in T1. exact T1.
+  - unfold saved_of. rewrite Eau. cbn [btype_eqb].
+    pose proof (resize_preserves_text_upto _ _ _ _ _ _ (decrst_scasb_resized u t1 HTu Eau H1)) as T.
+    rewrite Eo in T. exact T.
+Qed.
+
+Print Assumptions C16_return_list_any_holds.
